@@ -145,3 +145,36 @@ Definition can_step (g : graph) (S : list thread) : Prop :=
   exists i t c t', nth_error S i = Some t /\ tstep g t c = Some t' /\ may_step g S i.
 
 Definition live (S : list thread) : Prop := exists i pc L, nth_error S i = Some (At pc, L).
+
+(* ------------------------------------------------------------------------------------------ *)
+(* Writer preference (Go's sync.RWMutex): a reader also waits while a writer is waiting.  A thread that
+   sits at an exclusive Lock of m is counted as a waiting writer (it may have called Lock already): this
+   over-approximates the blocking of readers, which is the conservative direction for progress. *)
+
+Definition at_lock_excl (g : graph) (m : mutex) (t : thread) : bool :=
+  match fst t with
+  | At pc =>
+      match nth_error g pc with
+      | Some nd => match n_instr nd with ILock m' true => m' =? m | _ => false end
+      | None => false
+      end
+  | Done => false
+  end.
+
+Definition may_step_wp (g : graph) (S : list thread) (i : nat) : Prop :=
+  may_step g S i /\
+  match nth_error S i with
+  | Some (At pc, _) =>
+      match nth_error g pc with
+      | Some nd =>
+          match n_instr nd with
+          | ILock m false => forall j t, j <> i -> nth_error S j = Some t -> at_lock_excl g m t = false
+          | _ => True
+          end
+      | None => True
+      end
+  | _ => True
+  end.
+
+Definition can_step_wp (g : graph) (S : list thread) : Prop :=
+  exists i t c t', nth_error S i = Some t /\ tstep g t c = Some t' /\ may_step_wp g S i.
